@@ -150,8 +150,8 @@ class Machine(object):
                             g = module_funcs(f)(node.func.id)
                             gconfig = {}
                         else:
-                            owner = getattr(f, '_cls', None)
-                            r_ = owner.find_method(node.func.attr) if owner is not None else None
+                            owner = config.get('__cls__') or getattr(f, '_cls', None)        # the class of the object under evaluation (a template method of a base
+                            r_ = owner.find_method(node.func.attr) if owner is not None else None   # class calls the steps its subclass overrides)
                             g = r_[1] if r_ else None
                             gconfig = config
                         if g is None or node.keywords:
